@@ -243,7 +243,7 @@ def run(ctx, res):
 
 # ------------------------------------------------------------------------------------------------------------
 # a second caller at EVERY line of generate(), whether or not the generator has a lock of its own
-def line_interleave(gen, clock, k):
+def line_interleave(gen, clock, k, gen_b=None, b_ahead=0):
     """Caller A asks `gen` for one identifier per clock reading.  When A's generate() reaches its k-th traced line a
     second caller B (a real thread) asks the same generator for an identifier and is given 30 ms: with the critical
     section intact B simply waits until A is done; with any gap B runs inside A's call.  Returns (A's ids, B's ids,
@@ -256,7 +256,10 @@ def line_interleave(gen, clock, k):
     m.time = lambda: cur[0]
 
     def b_call():
-        b_ids.append(gen.generate())
+        # (gen_b: B asks ANOTHER generator of the same process, and reads the clock b_ahead seconds later than A did)
+        if gen_b is not None:
+            m.time = lambda: cur[0] + b_ahead
+        b_ids.append((gen_b or gen).generate())
 
     a_thread = threading.get_ident()
 
@@ -276,6 +279,9 @@ def line_interleave(gen, clock, k):
                     t.start()
                     threads.append(t)
                     t.join(0.03)
+                    if gen_b is not None:
+                        t.join(2)
+                        m.time = lambda: cur[0]
             return local
         return local
     try:
@@ -351,6 +357,33 @@ def interleave_half(res):
                     break
                 lines = max(lines, k)
             res.note_case(("line-interleave", origin, tuple(clock)), True)
+    # two generators of one process (an engine has one for events and one for runs), each used by ONE thread: while A is
+    # at line k of its generator, B obtains an identifier from the other one, a second later on the clock
+    n3, base = 0, 4 * 10 ** 9      # (beyond every second used earlier in this process, the real clock's included)
+    for origin in ("direct", "setup"):
+        for clock0 in ([5, 5, 6, 6, 7], [5, 6, 6, 7, 7, 7], [5, 4, 4, 5, 6]):
+            for ahead in (0, 1, 2):
+                for k in range(1, 16):
+                    base += 20          # (later seconds in every case: nothing a generator may keep per process interferes)
+                    clock = [c + base for c in clock0]
+                    gens = [m.BoboGenEventIDUnique("u"), m.BoboGenEventIDUnique("v")] if origin == "direct" else generators_of_setup("u")
+                    if len(gens) < 2:
+                        break
+                    a, b, hit = line_interleave(gens[0], clock, k, gen_b=gens[1], b_ahead=ahead)
+                    if not hit:
+                        break
+                    n3 += 1
+                    if len(set(a)) != len(a) or len(set(b)) != len(b) or len(a) != len(clock):
+                        res.failures.append(dict(signature="duplicate-id-two-generators-two-threads",
+                                                 what="two generators (%s), each used by one thread; B asks its generator while A is at "
+                                                      "line %d of generate() of the other, reading the clock %d s later: A got %s, B got %s"
+                                                      % ("constructed directly" if origin == "direct" else "of an engine from BoboSetupSimple",
+                                                         k, ahead, a, b),
+                                                 case=dict(clock=clock, line=k, origin=origin, ahead=ahead, interleaving="two-generators"),
+                                                 detail=None))
+                        break
+            res.note_case(("two-generators", origin, tuple(clock0)), True)
+    res.extra["two_generator_interleavings"] = n3
     n2 = 0
     for origin in ("direct", "setup"):
         stop = False
@@ -472,6 +505,15 @@ def replay(obj):
         print("caller B (paused at its line %d):" % case["line_b"], b, excs or "")
         dup = len(set(a + b)) != len(a + b) or bool(excs) or len(a + b) != 4
         print("duplicate identifiers" if dup else "identifiers pairwise distinct")
+        return 1 if dup else 0
+    if case.get("interleaving") == "two-generators":
+        import bobocep.cep.gen.event_id as m
+        gens = [m.BoboGenEventIDUnique("u"), m.BoboGenEventIDUnique("v")] if case["origin"] == "direct" else generators_of_setup("u")
+        a, b, _ = line_interleave(gens[0], case["clock"], case["line"], gen_b=gens[1], b_ahead=case.get("ahead", 0))
+        print("thread A, generator 1:", a)
+        print("thread B, generator 2 (asking when A is at line %d, clock %d s later):" % (case["line"], case.get("ahead", 0)), b)
+        dup = len(set(a)) != len(a) or len(set(b)) != len(b) or len(a) != len(case["clock"])
+        print("a generator repeated an identifier" if dup else "identifiers of each generator pairwise distinct")
         return 1 if dup else 0
     if case.get("interleaving") == "line":
         import bobocep.cep.gen.event_id as m
